@@ -177,7 +177,7 @@ func runC15(c *mon.Ctx) {
 			jobs = append(jobs, job{"bad-group", i})
 		}
 	}
-	for i := 0; i < c.N(40, 6000); i++ {
+	for i := 0; i < c.N(32, 6000); i++ {
 		jobs = append(jobs, job{"main", i})
 	}
 	for i := 0; i < c.N(9, 450); i++ {
